@@ -63,6 +63,23 @@ class PlainNet(nn.Module):
         return self.l2(self.act(self.l1(x)))
 
 
+class BoundedNet(nn.Module):
+    """A user-written conditioner that exposes `hidden_features` / `hidden_channels` (as the library's residual nets do) and bounds
+    its outputs with a final tanh - an op whose backward needs its own output."""
+
+    def __init__(self, i, o, c=0, h=6, image=False):
+        super().__init__()
+        self.hidden_features = h
+        self.hidden_channels = h
+        self.l1 = nn.Conv2d(i + c, h, kernel_size=1) if image else nn.Linear(i + c, h)
+        self.l2 = nn.Conv2d(h, o, kernel_size=1) if image else nn.Linear(h, o)
+
+    def forward(self, x, context=None):
+        if context is not None:
+            x = torch.cat([x, context], dim=1)
+        return torch.tanh(self.l2(torch.tanh(self.l1(x))))
+
+
 class PlainConvNet(nn.Module):
     def __init__(self, i, o, c=0, act="tanh", h=5):
         super().__init__()
@@ -87,6 +104,8 @@ def net_factory(cfg, image):
     bn = cfg.get("net_bn", False)
 
     def make(i, o):
+        if kind == "bounded":
+            return BoundedNet(i, o, c, image=image)
         if image:
             if kind == "plain":
                 return PlainConvNet(i, o, c, act)
@@ -273,13 +292,30 @@ class Logit(Fam):
         return _meta(cfg["shape"], opn(1e-5, 1 - 1e-5), R_, special=[0.5], tags=["sigmoid_eps"])
 
 
+def _cauchy_args(rng, cfg):
+    """the constructors accept location / scale / features (whatever the class does with them, the result must be a consistent
+    bijection with the log-det of the map actually computed)"""
+    if rng.random() < 0.5:
+        cfg["loc"] = float(rng.choice([-2.0, 0.5, 3.0]))
+        cfg["scale"] = float(rng.choice([0.3, 2.0, 5.0]))
+    return cfg
+
+
 @reg
 class CauchyCDF(_Simple):
     name = "cauchycdf"
 
+    def sample_cfg(self, rng, tier):
+        return _cauchy_args(rng, {"fam": self.name, "shape": _anyshape(rng)})
+
+    def must(self):
+        return super().must() + [{"fam": self.name, "shape": [2], "loc": 3.0, "scale": 5.0}]
+
     def build(self, cfg):
         from nflows import transforms as T
         from nflows.transforms.nonlinearities import CauchyCDF as C
+        if "loc" in cfg:
+            return C(location=cfg["loc"], scale=cfg["scale"], features=cfg["shape"][0])
         return C()
 
     def meta(self, cfg):
@@ -290,8 +326,16 @@ class CauchyCDF(_Simple):
 class CauchyCDFInverse(_Simple):
     name = "cauchycdfinv"
 
+    def sample_cfg(self, rng, tier):
+        return _cauchy_args(rng, {"fam": self.name, "shape": _anyshape(rng)})
+
+    def must(self):
+        return super().must() + [{"fam": self.name, "shape": [2], "loc": -2.0, "scale": 0.3}]
+
     def build(self, cfg):
         from nflows.transforms.nonlinearities import CauchyCDFInverse as C
+        if "loc" in cfg:
+            return C(location=cfg["loc"], scale=cfg["scale"], features=cfg["shape"][0])
         return C()
 
     def meta(self, cfg):
@@ -1333,7 +1377,10 @@ def apply_policy(model, policy, seed):
                     continue
                 if pname in _KEEP:
                     if policy != "zero" and pname == "q_vectors":
-                        p.copy_(rn(p) + 0.1 * torch.sign(rn(p)))
+                        # a reflection depends on the direction of its vector only: rows of very different length are as legal
+                        # as unit vectors (what an optimiser leaves behind is not normalised)
+                        sc = torch.tensor([1.0, 1.0, 0.01, 0.003, 30.0])[torch.randint(5, (p.shape[0],), generator=g)]
+                        p.copy_((rn(p) + 0.1 * torch.sign(rn(p))) * sc.reshape(-1, *([1] * (p.dim() - 1))))
                     elif policy != "zero":
                         p.copy_(rn(p, 0.5) + torch.eye(p.shape[0]))
                     continue
